@@ -1670,8 +1670,8 @@ class Segment(Element):
 
     def add(self, obj):
         super(Segment, self).add(obj)
-        # updates the index of the last children not allowed
-        if obj.name and self.allow_infinite_children:
+        # updates the index of the last children not allowed (a child that is here for traversal only does not count)
+        if obj.name and self.allow_infinite_children and obj.parent is self:
             field_index = int(obj.name[4:])
             if field_index > self._last_child_index:
                 self._last_child_index = field_index
